@@ -28,7 +28,48 @@ def run(path):
                 return 1
             print("the recorded behaviour no longer occurs (deviations used: %s)" % v["kf_used"])
             return 0
-        print("unknown replay kind")
-        return 2
+        if rp.get("kind") == "history" and rp.get("history", {}).get("calls"):
+            # a recorded concurrent execution: the program again under the recorded schedule (or free running, 200
+            # times, when it was recorded that way), every history observed judged by TLC (Lin.tla)
+            import checks_conc
+            drive = vlib.build_driver(sc)
+            hf, of = sc.path("h.json"), sc.path("o.ndjson")
+            json.dump(rp["history"], open(hf, "w"))
+            r = subprocess.run([drive, "schedreplay", "-history", hf, "-out", of], capture_output=True, text=True)
+            if r.returncode != 0:
+                print("INFRA: " + r.stderr[-2000:])
+                return 2
+            hs = [json.loads(l) for l in open(of)]
+            for i, h in enumerate(hs):
+                h["id"] = i + 1
+                print("  " + checks_conc.hbrief(h) + ("" if h["inv"] == "ok" else "   [" + h["inv"] + "]") +
+                      ("   DEADLOCK" if h["deadlock"] else "") + ("   PANIC" if h["panic"] else ""))
+            target = rp["history"]["fs"]
+            nl, _ = checks_conc.judge_lin(sc, target, hs, "replay")
+            kfs = checks_conc.open_conc("C06", "lin")
+            bad = [h for h in hs if h["deadlock"] or h["panic"] or h.get("tmpdup") or
+                   (h["id"] in nl and not checks_conc.match_lin(h, kfs))]
+            if bad:
+                print("VIOLATION property=%s replay=%s" % (rp["property"], path))
+                return 1
+            print("the recorded behaviour no longer occurs (%d histories observed, all linearizable)" % len(hs))
+            return 0
+        # every other kind comes from a deterministic universe: the owning check is run again (quick tier) and the
+        # recorded violation counts as reproduced when a violation with the same summary is reported
+        import registry, io, contextlib, glob
+        pid = rp["property"]
+        buf = io.StringIO()
+        with contextlib.redirect_stdout(buf):
+            rc = registry.CHECKS[pid]("quick", int(os.environ.get("VERIF_SEED", "1") or "1"))
+        # replay files are named after their content: the same violation is written to the same file again
+        again = ("replay=" + os.path.abspath(path)) in buf.getvalue()
+        if rc == 2:
+            print(buf.getvalue()[-3000:])
+            return 2
+        if again:
+            print("VIOLATION property=%s replay=%s" % (pid, path))
+            return 1
+        print("the recorded behaviour is not reported by the quick tier of %s any more (exit %d of that run)" % (pid, rc))
+        return 0
     finally:
         sc.cleanup()
